@@ -152,10 +152,21 @@ fn check_triangle(p: [Point; 3]) -> Result<usize, String> {
     Ok(pts.len())
 }
 
-fn check_outline(p: [Point; 3]) -> Result<usize, String> {
+fn align_of(a: &str) -> embedded_graphics::primitives::StrokeAlignment {
+    use embedded_graphics::primitives::StrokeAlignment;
+    match a {
+        "0" => StrokeAlignment::Inside,
+        "1" => StrokeAlignment::Center,
+        _ => StrokeAlignment::Outside,
+    }
+}
+
+fn check_outline(p: [Point; 3], al: embedded_graphics::primitives::StrokeAlignment) -> Result<usize, String> {
+    use embedded_graphics::primitives::{PrimitiveStyleBuilder, StrokeAlignment};
     let t = Triangle::new(p[0], p[1], p[2]);
+    let style = PrimitiveStyleBuilder::new().stroke_color(BinaryColor::On).stroke_width(1).stroke_alignment(al).build();
     let got: Vec<Point> = t
-        .into_styled(PrimitiveStyle::with_stroke(BinaryColor::On, 1))
+        .into_styled(style)
         .pixels()
         .map(|Pixel(q, _)| q)
         .collect();
@@ -163,9 +174,20 @@ fn check_outline(p: [Point; 3]) -> Result<usize, String> {
     if gset.len() != got.len() {
         return Err("outline pixels() yields a pixel twice".into());
     }
+    // Direction convention of the three edge lines (the property text does not fix one; a Bresenham line and its reverse
+    // differ in tie pixels): lines between the CLOCKWISE-ordered vertices a->b, b->c, c->a; for colinear / coincident
+    // vertices the vertices are (y,x)-sorted, and with StrokeAlignment::Inside the code takes the "collapsed" path
+    // (scanline_intersections.rs:46-48, mod.rs:221-225) which rasterises the (y,x)-sorted directions only
+    // (p1->p2, p2->p3, p1->p3 instead of p3->p1), as the fill does.
+    let degenerate = cross(v(p[0]), v(p[1]), v(p[2])) == 0;
     let c = clockwise(p);
+    let edges = if degenerate && al == StrokeAlignment::Inside {
+        [(c[0], c[1]), (c[1], c[2]), (c[0], c[2])]
+    } else {
+        [(c[0], c[1]), (c[1], c[2]), (c[2], c[0])]
+    };
     let mut want: BTreeSet<(i32, i32)> = BTreeSet::new();
-    for (a, b) in [(c[0], c[1]), (c[1], c[2]), (c[2], c[0])] {
+    for (a, b) in edges {
         for q in line_pts(a, b) {
             want.insert((q.y, q.x));
         }
@@ -173,11 +195,23 @@ fn check_outline(p: [Point; 3]) -> Result<usize, String> {
     if gset != want {
         let miss: Vec<_> = want.difference(&gset).take(3).collect();
         let extra: Vec<_> = gset.difference(&want).take(3).collect();
-        return Err(format!("1px outline differs from the three clockwise edge lines: missing (y,x) {:?} extra {:?}", miss, extra));
+        return Err(format!(
+            "1px outline ({:?}) differs from the three edge lines: missing (y,x) {:?} extra {:?}",
+            al, miss, extra
+        ));
+    }
+    // convention-free reading of the clause: every outline pixel lies on an edge line rasterised in one of its two
+    // directions, and each edge is present completely in at least one direction
+    for (a, b) in [(p[0], p[1]), (p[1], p[2]), (p[2], p[0])] {
+        let f: Vec<Point> = line_pts(a, b);
+        let r: Vec<Point> = line_pts(b, a);
+        if !(f.iter().all(|q| gset.contains(&(q.y, q.x))) || r.iter().all(|q| gset.contains(&(q.y, q.x)))) {
+            return Err(format!("edge {:?}-{:?} is not completely part of the 1px outline in either direction", a, b));
+        }
     }
     // the drawn image is the same set
     let mut tg: IterTarget<BinaryColor> = IterTarget::new(t.bounding_box().offset(3));
-    t.into_styled(PrimitiveStyle::with_stroke(BinaryColor::On, 1)).draw(&mut tg).unwrap();
+    t.into_styled(style).draw(&mut tg).unwrap();
     let dset: BTreeSet<(i32, i32)> = tg.map.keys().copied().collect();
     if dset != want {
         return Err("1px outline draw() differs from the three clockwise edge lines".into());
@@ -218,6 +252,110 @@ fn check_fill(p: [Point; 3]) -> Result<usize, String> {
         }
     }
     Ok(want.len())
+}
+
+/// squared distance from q to the closed segment ab, as the fraction (num, den) with den > 0
+fn dist2_segment(a: V, b: V, q: V) -> (i128, i128) {
+    let (dx, dy) = (b.0 - a.0, b.1 - a.1);
+    let l2 = dx * dx + dy * dy;
+    let t = (q.0 - a.0) * dx + (q.1 - a.1) * dy;
+    if l2 == 0 || t <= 0 {
+        (((q.0 - a.0).pow(2) + (q.1 - a.1).pow(2)) as i128, 1)
+    } else if t >= l2 {
+        (((q.0 - b.0).pow(2) + (q.1 - b.1).pow(2)) as i128, 1)
+    } else {
+        let c = cross(a, b, q) as i128;
+        (c * c, l2 as i128)
+    }
+}
+
+/// Styled<Triangle> with fill and/or stroke of any width: what C19 says about the covered set, observed at pixels()/draw():
+///  (1) with a fill and a visible (or zero width) stroke, every lattice point of the closed mathematical triangle is painted
+///      (Inside / Center strokes of width >= 2: the lattice points farther than width + 1 from every edge);
+///  (2) every painted pixel is inside the triangle or within 2*width + 1 pixels of an edge (mitre tips reach 2*width);
+///  (3) with width 0 the painted set is exactly points();
+///  (4) pixels() and draw() paint the same image, no pixel gets two colours.
+fn check_cover(
+    w: u32,
+    al: embedded_graphics::primitives::StrokeAlignment,
+    fill: bool,
+    stroke: bool,
+    p: [Point; 3],
+) -> Result<usize, String> {
+    use embedded_graphics::primitives::PrimitiveStyleBuilder;
+    use embedded_graphics::pixelcolor::Rgb565;
+    use crate::zoo::{FILL, STROKE};
+    let t = Triangle::new(p[0], p[1], p[2]);
+    let mut b = PrimitiveStyleBuilder::new().stroke_width(w).stroke_alignment(al);
+    if fill {
+        b = b.fill_color(FILL);
+    }
+    if stroke {
+        b = b.stroke_color(STROKE);
+    }
+    let st = t.into_styled(b.build());
+    let mut pm: BTreeMap<(i32, i32), u32> = BTreeMap::new();
+    for Pixel(q, c) in st.pixels() {
+        if let Some(old) = pm.insert((q.y, q.x), c.tag()) {
+            if old != c.tag() {
+                return Err(format!("pixels() gives {:?} two colours", q));
+            }
+        }
+    }
+    let mut tg: NativeTarget<Rgb565> = NativeTarget::new(st.bounding_box().offset(4));
+    st.draw(&mut tg).map_err(|_| "draw failed".to_string())?;
+    if tg.map != pm {
+        return Err(format!("pixels() and draw() differ ({} vs {} px)", pm.len(), tg.map.len()));
+    }
+    let tv = [v(p[0]), v(p[1]), v(p[2])];
+    let pts: BTreeSet<(i32, i32)> = t.points().map(|q| (q.y, q.x)).collect();
+    let degenerate = cross(tv[0], tv[1], tv[2]) == 0;
+    let win = t.bounding_box().offset(2 * w as i32 + 3);
+    let lim = (2 * w as i128 + 1) * (2 * w as i128 + 1);
+    for q in win.points() {
+        let inside = in_closed_triangle(&tv, v(q));
+        let painted = pm.get(&(q.y, q.x));
+        if inside && fill && (stroke || w == 0) && painted.is_none() {
+            // Clause 1 is about the FILL.  Full strength for stroke widths 0 and 1 and for Outside alignment (the fill is the whole
+            // triangle).  For Inside / Center strokes of width >= 2 the band along the edges belongs to the stroke, and how exactly
+            // a thick stroke rasterises it (bevelled sharp tips, parts thinner than the stroke, single lattice points on an edge,
+            // colinear vertices) is not what C19 speaks about (FINDINGS-C19.md, "observations outside the property"):
+            // only lattice points farther than width + 1 from every edge are demanded there.
+            let wl = (w as i128 + 1) * (w as i128 + 1);
+            let in_band = (0..3).any(|k| {
+                let (n, d) = dist2_segment(tv[k], tv[(k + 1) % 3], v(q));
+                n <= wl * d
+            });
+            let full = w <= 1 || al == embedded_graphics::primitives::StrokeAlignment::Outside;
+            if full || !(degenerate || in_band) {
+                return Err(format!("lattice point {:?} of the closed triangle is not painted (fill + stroke width {} {:?})", q, w, al));
+            }
+        }
+        if painted.is_some() && !inside {
+            let near = (0..3).any(|k| {
+                let (n, d) = dist2_segment(tv[k], tv[(k + 1) % 3], v(q));
+                n <= lim * d
+            });
+            if !near {
+                return Err(format!("painted pixel {:?} is more than {} pixels from the triangle", q, 2 * w + 1));
+            }
+        }
+    }
+    // (fill coloured pixels outside points() do occur on the unchanged code for widths >= 3 with Center/Outside alignment,
+    //  in the notch between two bevelled thick segments; no property speaks about the colour, so this is not checked)
+    for k in pm.keys() {
+        if !win.contains(Point::new(k.1, k.0)) {
+            return Err(format!("painted pixel ({}, {}) outside the probe window", k.1, k.0));
+        }
+    }
+    if w == 0 {
+        let want: BTreeSet<(i32, i32)> = if fill { pts.clone() } else { BTreeSet::new() };
+        let got: BTreeSet<(i32, i32)> = pm.keys().copied().collect();
+        if got != want {
+            return Err("width 0: painted set is not points()".into());
+        }
+    }
+    Ok(pm.len())
 }
 
 fn check_pair(a: Point, b: Point, c: Point, d: Point) -> Result<usize, String> {
@@ -332,7 +470,19 @@ pub fn search(suite: &str, a: &[&str]) -> Option<String> {
     Some(match suite {
         "p_tri" => fmt(check_triangle([pt(a[0], a[1]), pt(a[2], a[3]), pt(a[4], a[5])])),
         "p_tri_fill" => fmt(check_fill([pt(a[0], a[1]), pt(a[2], a[3]), pt(a[4], a[5])])),
-        "p_tri_outline" => fmt(check_outline([pt(a[0], a[1]), pt(a[2], a[3]), pt(a[4], a[5])])),
+        // p_tri_outline x1 y1 x2 y2 x3 y3 [align]   (align: 0 inside, 1 center (default), 2 outside)
+        "p_tri_outline" => fmt(check_outline(
+            [pt(a[0], a[1]), pt(a[2], a[3]), pt(a[4], a[5])],
+            align_of(if a.len() > 6 { a[6] } else { "1" }),
+        )),
+        // p_tri_cover w align fill stroke x1 y1 x2 y2 x3 y3
+        "p_tri_cover" => fmt(check_cover(
+            a[0].parse().unwrap(),
+            align_of(a[1]),
+            a[2] == "1",
+            a[3] == "1",
+            [pt(a[4], a[5]), pt(a[6], a[7]), pt(a[8], a[9])],
+        )),
         "p_tri_pair" => fmt(check_pair(pt(a[0], a[1]), pt(a[2], a[3]), pt(a[4], a[5]), pt(a[6], a[7]))),
         "p_poly" => fmt(check_polyline(pt(a[0], a[1]), &verts(&a[2..]))),
         _ => return None,
